@@ -169,10 +169,10 @@ def call_with_args(ex, c, recv, args, kwargs, st, awaited, e, first_is_self=Fals
         kw = dict(zip(kwnames, vals[len(plain):]))
         params = list(c.params)
         bound = {}
-        if recv is not None:
-            assert params and params[0][0] == 'self', c.qualname
+        if recv is not None and params and params[0][0] == 'self':
             bound['self'] = recv
             params = params[1:]
+        # else: a staticmethod called through an instance: the receiver is not passed
         # positional
         pi = 0
         for (pname, pkind, pdef) in params:
@@ -284,6 +284,12 @@ def run_contract(ex, c, argmap, st, e, yield_from=False):
     site = '%s@L%d' % (c.qualname, getattr(e, 'lineno', 0))
     before = st.copy()
     ctx0 = Ctx(pre=before, cur=before, args=argmap)
+    # ghost arguments: chosen by the caller's contract, else the callee's default
+    ghost = {name: dflt for name, (_mk, dflt) in c.ghost_params.items()}
+    passer = ex.c.ghost_pass.get(c.qualname)
+    if passer is not None:
+        ghost.update(passer(ex.mkctx(st)))
+    ctx0.ghost = ghost
     for label, fn in c._requires:
         goal = fn(ctx0)
         ex.oblige(st, '%s:%s' % (site, label), goal, 'call-pre', ctx0, lineno=getattr(e, 'lineno', None))
@@ -341,6 +347,7 @@ def run_contract(ex, c, argmap, st, e, yield_from=False):
     alive_mono(before, post)
     ctx = Ctx(pre=before, cur=post, args=argmap)
     ctx.mode = 'assume'
+    ctx.ghost = ghost
     kind = c.result_kind
     result = None
     result_v = None
@@ -379,6 +386,7 @@ def run_contract(ex, c, argmap, st, e, yield_from=False):
             s2.assume(s2.alive(exc), L.isa[cls if cls in L.CLASSES else 'Exception'](exc))
         cx = Ctx(pre=before, cur=s2, args=argmap, exc=exc)
         cx.mode = 'assume'
+        cx.ghost = ghost
         for label, fn in spec:
             s2.assume(fn(cx))
         s2.assume(cx.defs)
